@@ -56,6 +56,9 @@ class CallMixin:
                 return self.call_method(fv.fn[1], fv.fn[2], args, kwargs, st, n)
             return fv.fn(self, args, kwargs, st, n)
         if isinstance(fv, VClass): return self.construct(fv.name, args, kwargs, st, n)
+        if isinstance(fv, VRef):
+            h = self.contracts.get((fv.cls, "__call__"))
+            if h is not None: return h(self, fv, args, kwargs, st)
         if isinstance(fv, VOpaque):
             h = self.opaque_call.get(fv.sort)
             if h: return h(self, fv, args, kwargs, st, n)
@@ -285,7 +288,7 @@ class CallMixin:
             if "$a" in obj: return self.call_value(self.ext["arr_attr"](self, recv, name, st, n), args, kwargs, st, n)
             if "$d" in obj: return self.dict_method(recv, name, args, kwargs, st, n)
             if "$l" in obj: return self.list_method(recv, name, args, kwargs, st, n)
-            if name in obj and isinstance(obj[name], (VClosure, VFunc)):    # callable stored in a field
+            if name in obj and isinstance(obj[name], (VClosure, VFunc, VRef)):    # callable stored in a field
                 return self.call_value(obj[name], args, kwargs, st, n)
             found = self.w.lookup(recv.cls, name, after=after)
             if found is None:
